@@ -7,6 +7,7 @@
 #include <nstd/String.hpp>
 #include "engine/enum.hpp"
 #include <string>
+#include <ctype.h>
 
 static std::string sstr(const String& s) { return std::string((const char*)s, s.length()); }
 static std::string pat(int n, char base) { std::string s; for(int i = 0; i < n; ++i) s += (char)(base + i % 23); return s; }
@@ -90,6 +91,30 @@ int main(int argc, char** argv)
     if(vf::ledger().live_blocks != before) vf::violation("C06:String:leak", cs, vf::fmt("%lld heap block(s) left behind", vf::ledger().live_blocks - before));
     vf::hit("size_cases"); if(n >= 2) vf::hit("distinct_nontrivial");
     if(n == 201 && kind == 3 && op == 0) vf::sample(cs, 2);
+  }
+  // every byte value through the table-driven case mapping (ASCII letters map, every other byte stays): one table entry per character
+  if(sh.take())
+  {
+    vf::crumb("string.bytes", sh.token(), "character tables");
+    for(int b = 0; b < 256; ++b)
+    {
+      char c = (char)b;
+      std::string cs = vf::fmt("character 0x%02x", b);
+      int lo = b < 128 ? tolower(b) : b, up = b < 128 ? toupper(b) : b;
+      if((unsigned char)String::toLowerCase(c) != lo) vf::violation("C06:String:toLowerCase", cs, vf::fmt("toLowerCase(char) gives 0x%02x, expected 0x%02x", (unsigned char)String::toLowerCase(c), lo));
+      if((unsigned char)String::toUpperCase(c) != up) vf::violation("C06:String:toUpperCase", cs, vf::fmt("toUpperCase(char) gives 0x%02x, expected 0x%02x", (unsigned char)String::toUpperCase(c), up));
+      if(b)
+      {
+        String a; a.append('x'); a.append(c); a.append('Y');
+        String keep(a);
+        String l(a); l.toLowerCase(); String u(a); u.toUpperCase();
+        std::string wl = std::string("x") + (char)lo + "y", wu = std::string("X") + (char)up + "Y", orig = std::string("x") + c + "Y";
+        if(sstr(l) != wl) vf::violation("C06:String:toLowerCase", cs, "toLowerCase() gives '" + vf::show(sstr(l)) + "', expected '" + vf::show(wl) + "'");
+        if(sstr(u) != wu) vf::violation("C06:String:toUpperCase", cs, "toUpperCase() gives '" + vf::show(sstr(u)) + "', expected '" + vf::show(wu) + "'");
+        if(sstr(a) != orig || sstr(keep) != orig) vf::violation("C06:String:sharer-changed", cs, "case mapping of a copy changed its source");
+      }
+      vf::hit("character_cases");
+    }
   }
   vf::watchdog_disarm();
   vf::emit_counters();
